@@ -87,8 +87,14 @@ def compare(got, exp, sig, extra=None):
     exp = np.asarray(exp)
     if got.shape != exp.shape:
         raise Mismatch(sig + "/shape", {"got": list(got.shape), "expected": list(exp.shape), "x": extra})
-    if not gen.eq_nan(got.astype(float), exp.astype(float)):
-        raise Mismatch(sig + "/values", {"got": got.tolist(), "expected": exp.tolist(), "x": extra})
+    g, e = got.astype(float), exp.astype(float)
+    if not gen.eq_nan(g, e):
+        # numpy evaluates `x ** 2` (and small integer powers) through different routines for arrays, 0-d arrays and scalars,
+        # which may differ in the last bit; the oracle and glue need not hand numpy the same form, so a few ulp are allowed
+        with np.errstate(all="ignore"):
+            close = np.isclose(g, e, rtol=8 * np.finfo(float).eps, atol=0.0, equal_nan=True) | (g == e)
+        if not bool(np.all(close)):
+            raise Mismatch(sig + "/values", {"got": got.tolist(), "expected": exp.tolist(), "x": extra})
 
 
 def fn_expr(spec, rec):
